@@ -21,7 +21,11 @@
 #include <cstdio>
 #include <cstdlib>
 #include <cstring>
+#include <condition_variable>
+#include <functional>
 #include <map>
+#include <mutex>
+#include <thread>
 #include <set>
 #include <sstream>
 #include <string>
@@ -148,6 +152,8 @@ struct Step
 struct Plan
 {
     long                 globalSeed = 0;
+    int                  threads = 1;           // OS threads the clients are spread over (1 = all on the main thread)
+    std::map<int, int>   affinity;              // scheduler id of a client -> thread index (absent = 0 = main)
     std::vector<EClient> e;
     std::vector<int>     g;
     std::vector<Pair>    pairs;
@@ -160,6 +166,12 @@ static std::string planText (const Plan& p)
 {
     std::ostringstream o;
     o << "global " << p.globalSeed << "\n";
+    if (p.threads > 1)
+    {
+        o << "threads " << p.threads;
+        for (auto& kv : p.affinity) o << " " << kv.first << ":" << kv.second;
+        o << "\n";
+    }
     for (auto& c : p.e) o << "E " << c.id << " " << c.s[0] << " " << c.s[1] << " " << c.s[2] << (c.boundary ? " b" : "") << "\n";
     for (int id : p.g) o << "G " << id << "\n";
     for (auto& q : p.pairs)
@@ -205,6 +217,16 @@ static bool parsePlan (const std::string& text, Plan& p, std::string& err)
         std::string        t;
         l >> t;
         if (t == "global") l >> p.globalSeed;
+        else if (t == "threads")
+        {
+            l >> p.threads;
+            std::string tok;
+            while (l >> tok)
+            {
+                size_t c = tok.find (':');
+                if (c != std::string::npos) p.affinity[atoi (tok.substr (0, c).c_str ())] = atoi (tok.substr (c + 1).c_str ());
+            }
+        }
         else if (t == "E")
         {
             EClient c; std::string b;
@@ -337,6 +359,16 @@ static Plan generate (uint64_t seed)
             q.script.push_back (s);
         }
         p.pairs.push_back (q);
+    }
+    // strictly sequential hand-off between OS threads: the clients are spread over 1-3 real threads that the
+    // simulator parks and releases one at a time (POSIX rand48 state is per process, not per thread)
+    if (r.chance (0.35))
+    {
+        p.threads = r.range (2, 3);
+        for (auto& c : p.e) p.affinity[c.id] = int (r.below (p.threads));
+        for (int id : p.g) p.affinity[id] = int (r.below (p.threads));
+        for (auto& q : p.pairs) { p.affinity[1000 + 2 * q.id] = int (r.below (p.threads)); p.affinity[1000 + 2 * q.id + 1] = int (r.below (p.threads)); }
+        p.affinity[5000] = int (r.below (p.threads));
     }
     // the schedule: who takes the next step, and what it does
     std::vector<int> weights; // index into a flat client table
@@ -609,6 +641,57 @@ static std::string twinStep (TwinState<R>& t, const Pair& q, int side, bool isFl
     return bad;
 }
 
+// Real OS threads, parked; exactly one runs at a time, chosen by the plan (no choice is left to the OS scheduler)
+struct Lanes
+{
+    struct Lane
+    {
+        std::thread             th;
+        std::mutex              m;
+        std::condition_variable cv;
+        std::function<void ()>  job;
+        bool                    has = false, done = false, quit = false;
+    };
+    std::vector<Lane*> lanes;
+    explicit Lanes (int n)
+    {
+        for (int i = 1; i < n; i++)
+        {
+            Lane* l = new Lane;
+            l->th = std::thread ([l] () {
+                std::unique_lock<std::mutex> lk (l->m);
+                for (;;)
+                {
+                    l->cv.wait (lk, [l] () { return l->has || l->quit; });
+                    if (l->quit) return;
+                    l->job ();
+                    l->has = false; l->done = true;
+                    l->cv.notify_all ();
+                }
+            });
+            lanes.push_back (l);
+        }
+    }
+    void run (int t, const std::function<void ()>& f)
+    {
+        if (t <= 0 || t > int (lanes.size ())) { f (); return; }
+        Lane* l = lanes[t - 1];
+        std::unique_lock<std::mutex> lk (l->m);
+        l->job = f; l->has = true; l->done = false;
+        l->cv.notify_all ();
+        l->cv.wait (lk, [l] () { return l->done; });
+    }
+    ~Lanes ()
+    {
+        for (auto l : lanes)
+        {
+            { std::unique_lock<std::mutex> lk (l->m); l->quit = true; l->cv.notify_all (); }
+            l->th.join ();
+            delete l;
+        }
+    }
+};
+
 static Outcome interpret (const Plan& p, Stats& st)
 {
     Outcome o;
@@ -651,10 +734,17 @@ static Outcome interpret (const Plan& p, Stats& st)
     int lastClient = -1;
     std::set<int> stepped;
     int stepNo = 0;
+    Lanes lanes (p.threads);
+    int lastThread = 0;
     for (auto& s : p.steps)
     {
         if (!o.ok) break;
         int cid = s.type == 's' ? s.id : s.type == 't' ? 1000 + 2 * s.id + s.side : 5000;
+        int thr = 0;
+        if (p.threads > 1) { auto it = p.affinity.find (cid); if (it != p.affinity.end ()) thr = it->second % p.threads; }
+        if (thr != lastThread) st.inc ("fault.cross_thread_handoff");
+        lastThread = thr;
+        lanes.run (thr, [&] () {
         if (stepped.count (cid) && lastClient != cid) st.inc ("fault.foreign_interleave");
         stepped.insert (cid);
         lastClient = cid;
@@ -804,6 +894,7 @@ static Outcome interpret (const Plan& p, Stats& st)
             for (auto v : outv) o.hash = fnv (o.hash, v);
             if (!bad.empty ()) fail (stepNo, bad + "<" + s.vec + ",adversarial " + s.gen + ">", "forced generator outputs");
         }
+        });
         // steps that reference a client the (minimised) plan no longer declares are no-ops
         stepNo++;
     }
